@@ -1,5 +1,6 @@
 """C11 - interaction lists are well-formed and self-consistent (forms S + E)."""
 import csv
+import itertools
 import json
 import os
 
@@ -60,6 +61,8 @@ def families(tier):
         ("G2-three-nucleotides", lambda: iter(fam.g2(tier)), 8),
         ("G3-corpus", lambda: fam.corpus_cases(tier, G3_Q, G3_T), 16),
         ("all-models", lambda: multi_model_cases(), 1),
+        # one structure object holding two models (numbered 1/2, 0/1 or 5/2) of different geometry: every model's annotation must be well-formed on its own
+        ("two-models", lambda: itertools.chain(fam.two_model_cases(fam.g1_stack("quick"), 41, 5), fam.two_model_cases(fam.g1_pairs("quick"), 17, 3)), 8),
         ("schedules", lambda: (dict(c, schedules=True) for k, c in enumerate(fam.g1_pairs("quick")) if k % (16 if q else 8) == 0), 4),
     ]
 
@@ -113,6 +116,24 @@ def run_case(case):
     out = []
     n = 0
     transitions = states = 0
+    if case["g"] == 4 and "m1" in case:
+        s = fam.two_model_structure(case)
+        mn = tuple(case.get("model_numbers", (1, 2)))
+        singles = {mn[0]: fam.structure_of(case["m1"]), mn[1]: fam.structure_of(dict(case["m2"], idmode=case["m1"].get("idmode", 0)))}
+        for m in (mn[0], mn[1], mn[0]):
+            r = observe(extract_base_interactions, s, m)
+            if r[0] == "exc":
+                out.append(viol("extract:model:" + r[1], "extract_base_interactions(structure, %d) raised %s" % (m, r[2])))
+                continue
+            ac.judge_wellformed(refann.from_structure3d(singles[m]), r[1], out, ":other-model" if m != mn[0] else ":first-model")
+            alone = observe(extract_base_interactions, singles[m])
+            if alone[0] == "ok" and digest(alone[1]) != digest(r[1]):
+                out.append(viol("wf:model-answer-differs", "the annotation of model %d inside a two-model object differs from the annotation of the same residues alone" % m, digest(r[1]), digest(alone[1])))
+            n += sum(len(x) for x in digest(r[1]))
+        u = {}
+        for v in out:
+            u.setdefault(v["signature"], v)
+        return dict(nontrivial=n > 0, outcome="two-models", violations=list(u.values()))
     if case["g"] == 4:
         s = fam.corpus_structure_all_models(case["file"]) if hasattr(fam, "corpus_structure_all_models") else None
         from rnapolis.parser import read_3d_structure
